@@ -18,6 +18,10 @@ CHECKS = {
          "Decides only the last sentence of the property (no panic on the empty set through the sentinel links; operands never modified). The arithmetic clauses (membership, cardinality, union, complement, equality) are values of executions over insertion histories and are explicitly not decided.",
          "DESIGN.md §4 C16",
          "Trusts go/ssa; assumes the list-shape invariant of AddRange for walks through *Node aliases (not decided); partial claim: set arithmetic is not covered."),
+ "C09": ("interprocedural mod/ref (write/read set) disjointness of the fork-join closures over go/ssa with a field-based location abstraction; must-pass-through join check; global-store and nondeterminism-source search over the reachable call graph",
+         "Decides that the two analysis goroutines share no written location (sound under the over-approximating field-based abstraction), that the spawner joins before touching their results, that no package-level state is written at run time and that no source of run-to-run variation (map iteration, select, clock, randomness, environment, pointer formatting) is reachable from Compile, the builder API or main. These are the structural conditions that make generation a pure function; byte-identity itself is not observed.",
+         "DESIGN.md §4 C09",
+         "Trusts go/ssa and the library effect table (effects.go); assumes text/template, go/parser and go/printer are deterministic; object-insensitive: may over-report, cannot under-report for the stated obligations."),
 }
 
 NOT_APPLICABLE = {
